@@ -23,6 +23,20 @@ CHECKS = {
  "C16": ("M", TECH_M, "a nine-step solver-checked proof script over the symbolically executed MIR of Qibla::new shows degrees = -atan2(E,N) (mod 360) of the independent east/north vector form for every latitude in (-90,90) and longitude in [-180,180], range (-180,180], elevation independence, and the rotation label.",
          "libm as uninterpreted functions + instantiated theorems; {:.1} text rendering outside the claim; Kaaba constants must lie within 1e-4 deg of the property's."),
 }
+CHECKS.update({
+ "C05": ("M", TECH_M, "z3 decides over the symbolically executed MIR that prayer_times_dt returns exactly seven entries, get_hours exactly six with Dhuhr Ok, that on the hour-angle scale Fajr < sunrise < Dhuhr < Asr < sunset < Isha (first-approximation rise/set, gaps >= 0.14 rad) within 12 h for |lat| <= 60 and angles in [9,21], that a larger angle moves Fajr earlier (Imsaak <= Fajr), and that policy None flags nothing.",
+         "ordering is decided against the first-approximation rise/set hour angle; libm as uninterpreted functions + instantiated theorems; rounding monotone by C11."),
+ "C07": ("M", TECH_M, "z3 refutes every reachable panic outcome (unwrap/expect/index/RefCell borrow/overflow/from_hms_opt) of adj_for_ext_lat with all 15 policies, adj_for_int, get_imsaak, prayer_times_dt's assembly and hour_to_time on symbolic hours (all validity patterns), angles [0,25], intervals [0,180], offsets [-1500,1500]; the while-loop in hour_to_time is bounded for hours in [-50,75].",
+         "layered: recomputation points are stubs returning arbitrary maps; kernels below get_hours contain no panicking construct (executed symbolically under C02-C06); running time in the grazing band cos(dec)cos(lat)|sin H| < 1e-9 is excluded."),
+ "C08": ("M", TECH_M, "z3 decides on every path of adj_for_ext_lat for the 14 policies (symbolic hours, all validity patterns, stubbed recomputation) the frame, identity and flag clauses of the property.",
+         "named-method quantifier for intervals; A1 (interval-defined Isha exists at the substitute latitude); half-of-night exempt from the flag clause."),
+ "C09": ("M", TECH_M, "z3 decides on every path of adj_near_good (symbolic validity pattern over offsets -B..B, B = 20 quick / 45 thorough, symbolic ordinal 1..366) that the result is the flagged value of the closest valid offset, earlier date on ties, and that the search never stops before a valid offset within the bound.",
+         "test_fajr_isha stubbed by the validity array; |lat| <= 64 assumption (non-twilight times exist); offsets beyond B outside the tier's claim."),
+ "C10": ("M", TECH_M, "z3 decides on every path of adj_for_ext_lat the seventh-of-night/day, angle-based and minutes-from-maghrib formulas (3 s), flags, interval re-application, and that nearest-latitude recomputes get_hours exactly once at the substitute latitude with the same longitude/elevation/day and takes exactly the named entries.",
+         "Shurooq < Maghrib inside the civil day (property quantifier); recomputation stubbed by a symbolic map; A1."),
+ "C12": ("M", TECH_M, "z3 decides the wiring and non-interference obligations: minutes[key] read with its own key and added exactly; interval definitions of Isha/Fajr with the flag preserved; get_imsaak's three branches and extreme branch; weather only into the sunrise/sunset kernel and absent weather = default; get_asr / get_fajr_isha independent of the parameters they must not read.",
+         "compositional (per function) rather than end-to-end; libm as uninterpreted functions."),
+})
 NA = {
  "C15": "quantifies over thread interleavings of std::thread::scope + mpsc; Kani does not model concurrency and no installed symbolic engine reaches Rust std threads (DESIGN.md §4 C15)",
  "C19": "process-level property (argv parsing by clap, files, serde_json text, exit status): outside the reach of symbolic execution of the crate (DESIGN.md §4 C19)",
